@@ -185,9 +185,11 @@ func ValidateCounterpartyID(id string, protocol ProtocolID) error {
 // isInteger returns true if the string can be converted to
 // an integer, false otherwise.
 func isInteger(s string) bool {
-	_, err := strconv.Atoi(s)
+	n, err := strconv.ParseUint(s, 10, 32)
 
-	return err == nil
+	// Only the canonical decimal form of a 32-bit domain is accepted (no sign,
+	// no leading zeros), which is the form used to match and record transfers.
+	return err == nil && strconv.FormatUint(n, 10) == s
 }
 
 // ID generates an internal identifier for a tuple (bridge protocol, chain).
